@@ -273,6 +273,20 @@ Proof.
   destruct (filter _ (upd j (set_wpc p) l)); [reflexivity|discriminate E].
 Qed.
 
+Lemma filter_release f c l :
+  filter (fun w => f (w_owner w)) (map (release_worker c) l)
+  = map (release_worker c) (filter (fun w => f (w_owner w)) l).
+Proof.
+  induction l as [|y l IH]; cbn; [reflexivity|]. rewrite release_owner.
+  destruct (f (w_owner y)); cbn; now rewrite IH.
+Qed.
+
+Lemma map_child_release c l : map w_child (map (release_worker c) l) = map w_child l.
+Proof. rewrite map_map. apply map_ext. intros w. apply release_child. Qed.
+
+Lemma forallb_wdone_release c l : forallb wdone (map (release_worker c) l) = forallb wdone l.
+Proof. induction l as [|y l IH]; cbn; [reflexivity|]. now rewrite release_wdone, IH. Qed.
+
 Lemma filter_upd_kpc f i p l :
   map k_child (filter (fun k => f (k_by k)) (upd i (set_kpc p) l))
   = map k_child (filter (fun k => f (k_by k)) l).
@@ -405,6 +419,8 @@ Ltac own_side kk :=
     | (intros Hd; eapply (wdone_upd (fun o => owner_eqb o (ORel kk))); [eassumption| |exact Hd];
        match goal with Hp : w_pc ?w = _ |- _ => unfold wdone; rewrite Hp; reflexivity end)
     | apply (filter_upd_wpc (fun o => owner_eqb o (ORel kk)))
+    | (rewrite (filter_release (fun o => owner_eqb o (ORel kk))); apply map_child_release)
+    | (rewrite (filter_release (fun o => owner_eqb o (ORel kk))), forallb_wdone_release; exact (fun H => H))
     | apply (filter_upd_kpc (fun o => owner_eqb o (ORel kk)))
     | rewrite filter_app, filter_spawn_workers_other, app_nil_r; [reflexivity|cbn; try reflexivity; apply Nat.eqb_neq; congruence]
     | rewrite filter_app, filter_spawn_kids_other, app_nil_r; [reflexivity|cbn; try reflexivity; apply Nat.eqb_neq; congruence]
@@ -433,6 +449,7 @@ Proof.
   all: rewrite ?filter_app, ?Hw, ?Hc; cbn.
   all: try (rewrite filter_spawn_workers_other by (cbn; try reflexivity; apply Nat.eqb_neq; lia)).
   all: try (rewrite filter_spawn_kids_other by (cbn; try reflexivity; apply Nat.eqb_neq; lia)).
+  all: try (rewrite (filter_release (fun o => owner_eqb o (ORel kk))), Hw; cbn).
   all: try (split; [apply (filter_upd_wpc_nil (fun o => owner_eqb o (ORel kk)))|]; auto; fail).
   all: try (split; [|apply (filter_upd_kpc_nil (fun o => owner_eqb o (ORel kk)))]; auto; fail).
   all: auto.
